@@ -16,6 +16,7 @@ package scanner
 
 import (
 	"container/list"
+	"sync"
 	"time"
 )
 
@@ -25,6 +26,8 @@ type compactRecord struct {
 }
 
 type compactRecordQueue struct {
+	// mu guards list: compactions may run concurrently (periodic loop and client requests)
+	mu   sync.Mutex
 	list *list.List
 }
 
@@ -35,14 +38,23 @@ func newCompactRecordQueue() *compactRecordQueue {
 }
 
 func (c *compactRecordQueue) push(cr *compactRecord) {
+	c.mu.Lock()
+	defer c.mu.Unlock()
 	c.list.PushBack(cr)
 }
 
 func (c *compactRecordQueue) pop() {
+	c.mu.Lock()
+	defer c.mu.Unlock()
+	if c.list.Front() == nil {
+		return
+	}
 	c.list.Remove(c.list.Front())
 }
 
 func (c *compactRecordQueue) head() *compactRecord {
+	c.mu.Lock()
+	defer c.mu.Unlock()
 	elem := c.list.Front()
 	if elem == nil {
 		return nil
